@@ -178,6 +178,46 @@ def run(ctx):
     if res is not None:
         ctx.violation(dict(case='one bundle of 90 members, about 43 kB of replies', at_request=res[0]), res[1])
     ctx.coverage['big_bundle_members'] = len(members)
+    # the client's encoding of a bundle: whatever request objects the connector builds (read / write / attribute services / generic service
+    # codes with and without a data payload), the Multiple Service Packet carries each member exactly as that member is encoded when sent alone
+    import copy, struct
+    from cpppo import dotdict
+    from cpppo.server.enip import client as C, logix as LG
+    nenc = 0
+    for _ in range(200 if ctx.thorough else 50):
+        reqs = []
+        for _k in range(ctx.rng.randrange(1, 7)):
+            kind = ctx.rng.randrange(6)
+            if kind == 0:
+                reqs.append(C.connector.read(None, path='T[%d]' % ctx.rng.randrange(4), elements=ctx.rng.randrange(1, 4), send=False))
+            elif kind == 1:
+                n = ctx.rng.randrange(1, 4)
+                reqs.append(C.connector.write(None, path='T[0]', data=[ctx.rng.randrange(-9, 9) for _ in range(n)], elements=n, tag_type=196, send=False))
+            elif kind == 2:
+                reqs.append(C.connector.service_code(None, code=ctx.rng.choice([0x01, 0x0E, 0x4B]), path='@%d/1/%d' % (ctx.rng.choice([1, 2, 0x99]), ctx.rng.randrange(1, 5)), send=False))
+            elif kind == 3:
+                data = [ctx.rng.getrandbits(8) for _ in range(ctx.rng.choice([1, 2, 3, 4, 7]))]
+                reqs.append(C.connector.service_code(None, code=0x10, path='@0x99/1/%d' % ctx.rng.randrange(1, 4), data=data, send=False))
+            elif kind == 4:
+                reqs.append(C.connector.get_attribute_single(None, path='@0x99/1/2', send=False))
+            else:
+                reqs.append(C.connector.set_attribute_single(None, path='@0x99/1/2', data=[ctx.rng.getrandbits(8) for _ in range(4)], elements=4, send=False))
+        try:
+            singles = [bytes(LG.Logix.produce(copy.deepcopy(r))) for r in reqs]
+            m = dotdict(service=0x0A, path={'segment': [dotdict({'class': 2}), dotdict({'instance': 1})]})
+            m.multiple = dotdict(request=[copy.deepcopy(r) for r in reqs])
+            got = bytes(LG.Logix.produce(m))
+        except Exception as e:
+            ctx.violation(dict(members=[repr(dict(r))[:120] for r in reqs], error=type(e).__name__), 'the client could not encode a bundle of requests it can encode singly'); break
+        nenc += 1
+        offs, pos = [], 2 + 2 * len(singles)
+        for sb in singles:
+            offs.append(pos); pos += len(sb)
+        want = bytes([0x0A, 0x02, 0x20, 0x02, 0x24, 0x01]) + struct.pack('<H', len(singles)) + b''.join(struct.pack('<H', o) for o in offs) + b''.join(singles)
+        if got != want:
+            ctx.violation(dict(members=[sb.hex() for sb in singles], bundle=got.hex(), expected=want.hex()),
+                          'a bundled request is not the offset table followed by each member as it is encoded when sent alone'); break
+    ctx.coverage['client_bundle_encodings'] = nenc
     # the members of a bundle are decoded by closures deferred through the parser's post-processing list: with several sessions parsing
     # bundles at once each closure must be run by the thread that registered it (the real dfa_post under generated interleavings, as in C09)
     from props import c09
